@@ -242,6 +242,10 @@ pub struct Kanata {
     pub macro_on_press_cancel_duration: u32,
     /// Stores user's saved clipboard contents.
     pub saved_clipboard_content: SavedClipboardData,
+    /// Whether the last tick pressed or released a key at the OS. A tick that changed the key
+    /// output may have a follow-up on the next tick (e.g. an override deactivating), so the
+    /// processing loop must not block right after it.
+    key_output_changed_last_tick: bool,
 }
 
 #[derive(PartialEq, Clone, Copy)]
@@ -446,6 +450,7 @@ impl Kanata {
             allow_hardware_repeat: cfg.options.allow_hardware_repeat,
             macro_on_press_cancel_duration: 0,
             saved_clipboard_content: Default::default(),
+            key_output_changed_last_tick: false,
         })
     }
 
@@ -582,6 +587,7 @@ impl Kanata {
             allow_hardware_repeat: cfg.options.allow_hardware_repeat,
             macro_on_press_cancel_duration: 0,
             saved_clipboard_content: Default::default(),
+            key_output_changed_last_tick: false,
         })
     }
 
@@ -1019,6 +1025,7 @@ impl Kanata {
     fn handle_keystate_changes(&mut self, _tx: &Option<Sender<ServerMessage>>) -> Result<bool> {
         let layout = self.layout.bm();
         let custom_event = layout.tick();
+        self.key_output_changed_last_tick = false;
         let mut live_reload_requested = false;
         let cur_keys = &mut self.cur_keys;
         cur_keys.extend(layout.keycodes());
@@ -1150,6 +1157,7 @@ impl Kanata {
                 continue;
             }
             log::debug!("key release   {:?}", k);
+            self.key_output_changed_last_tick = true;
             if let Err(e) = release_key(&mut self.kbd_out, k.into()) {
                 bail!("failed to release key: {:?}", e);
             }
@@ -1202,6 +1210,7 @@ impl Kanata {
             // allocations and logic.
             self.prev_keys.push(*k);
             self.last_pressed_key = *k;
+            self.key_output_changed_last_tick = true;
 
             if self.sequence_always_on && self.sequence_state.is_inactive() {
                 self.sequence_state
@@ -2189,6 +2198,7 @@ impl Kanata {
             // macro cancelled between ticks, caps-word toggled off) still needs one more tick to
             // be released at the OS, also while other keys are still held.
             && self.prev_keys.len() == self.layout.b().keycodes().count()
+            && !self.key_output_changed_last_tick
             && !self.layout.b().states.iter().any(|s| {
                 matches!(s, State::SeqCustomPending(_) | State::SeqCustomActive(_))
                     || (pressed_keys_means_not_idle && matches!(s, State::NormalKey { .. }))
